@@ -201,3 +201,24 @@ M("c14-dereg-revert", "C14", "flexstack/facilities/local_dynamic_map/ldm_service
   "        for subscription in stale:\n            self.remove_subscription(subscription)\n", "", "revert: subscriptions survive deregistration")
 M("c14-last-shared", "C14", "flexstack/facilities/local_dynamic_map/ldm_service.py",
   "                return\n            self.last_checked_subscriptions_time[subscription] = current_time\n", "                return\n            for other in self.last_checked_subscriptions_time:\n                self.last_checked_subscriptions_time[other] = current_time\n", "a notification resets the interval of every subscription")
+
+# ---------------------------------------------------------------- C09
+M("c09-no-sig", "C09", "flexstack/security/certificate.py",
+  "                if self.verify_signature(\n                    backend,\n                    self.certificate[\"toBeSigned\"],\n                    self.certificate[\"signature\"],\n                    self.issuer.certificate[\"toBeSigned\"][\"verifyKeyIndicator\"][1],\n                ):\n                    return True",
+  "                return True", "issued certificates accepted without checking the signature")
+M("c09-no-perm", "C09", "flexstack/security/certificate.py",
+  "            and self.check_issuer_has_subject_permissions(self.issuer)\n", "", "permission containment not checked at verification")
+M("c09-no-issuer-corr", "C09", "flexstack/security/certificate.py",
+  "            and self.check_corresponding_issuer(self.issuer)\n", "", "issuer digest correspondence not checked")
+M("c09-seq3-root", "C09", "flexstack/security/certificate_library.py",
+  "            if root_certificate.as_hashedid8() in self.known_root_certificates.keys():\n                return self.verify_sequence_of_certificates(",
+  "            self.add_root_certificate(root_certificate)\n            if root_certificate.as_hashedid8() in self.known_root_certificates.keys():\n                return self.verify_sequence_of_certificates(", "a root offered in a 3-certificate chain is trusted")
+M("c09-add-at-noverify", "C09", "flexstack/security/certificate_library.py",
+  "            if issuer_certificate is not None:\n                if certificate.verify(self.ecdsa_backend):\n                    self.known_authorization_tickets[certificate.as_hashedid8()] = (",
+  "            if issuer_certificate is not None:\n                if True:\n                    self.known_authorization_tickets[certificate.as_hashedid8()] = (", "tickets admitted when the issuer is known, without verification")
+M("c09-psid-revert", "C09", "flexstack/security/verify_service.py",
+  "            if app_permissions is not None and psid not in [", "            if False and psid not in [", "revert: message PSID not checked")
+M("c09-time-after", "C09", "flexstack/security/verify_service.py",
+  "                if not valid_from <= header_info[\"generationTime\"] <= valid_until:", "                if not valid_from <= header_info[\"generationTime\"]:", "expiry of the ticket not checked")
+M("c09-chain-budget", "C09", "flexstack/security/certificate.py",
+  "        if not any(\n            permission[\"minChainLength\"] < 1 for permission in issuer_permissions\n        ):\n            return True\n        return False", "        return True", "issuer chain-length budget ignored when issuing")
